@@ -9,7 +9,7 @@ COMMON_FLAGS := -g -fno-omit-frame-pointer -D_GLIBCXX_ASSERTIONS -DNDEBUG -DDJIN
 SAN_FLAGS := -O1 -fsanitize=address,undefined -fno-sanitize-recover=undefined $(COMMON_FLAGS)
 OPT_FLAGS := -O2 -fsanitize=undefined -fno-sanitize-recover=undefined $(COMMON_FLAGS)
 
-HSRC := $(wildcard src/common/*.cpp) $(wildcard src/checks/*.cpp)
+HSRC := $(wildcard src/common/*.cpp) $(wildcard src/refcodec/*.cpp) $(wildcard src/model/*.cpp) $(wildcard src/checks/*.cpp)
 INCS  = -I$(REPO)/include -I$(BUILD)/lib-$(1)/include -I$(REPO)/src -I$(REPO)/ext/sqlite_modern_cpp -I$(REPO)/ext/date -Isrc -DDJINTEROP_SOURCE
 
 .PHONY: all build lib-san lib-opt clean setup
